@@ -13,7 +13,7 @@
 //
 // Second family, cyclicMixedExclusive (harness/cycfam): tables of 2-3 fragments on A / B / I spread side by side below
 // `i`, bodies = subsets of { x: c { ...Fj }, ...Fj, n }: the fragment pair memo is asked about one pair with and
-// without mutual exclusivity in the middle of a cycle. Same comparisons. The overlap rule runs under a watchdog (a
+// without mutual exclusivity in the middle of a cycle. Same comparisons. The overlap rule runs under a watchdog on the step counters (a
 // recursion without end would otherwise take the harness down with a fatal stack overflow), and the case in flight is
 // kept in <replaydir>/inflight-c02overlap.json.
 package main
@@ -388,16 +388,34 @@ func runRule(schema *graphql.Schema, doc *ast.Document, rule graphql.ValidationR
 	return out
 }
 
-// runRuleWatched = runRule in a goroutine; hung = it did not return within limit (the goroutine cannot be stopped: the
-// caller reports and ends the process).
-func runRuleWatched(schema *graphql.Schema, doc *ast.Document, rule graphql.ValidationRuleFn, counters bool, limit time.Duration) (out realOut, hung bool) {
+// runOverlapWatched = runRule(OverlappingFieldsCanBeMergedRule) in a goroutine, watched every 10 ms: hung != "" when the
+// rule is still running and EITHER a memo body counter already exceeds the proved bound (memo_body_at_most_once:
+// betweenFragments bodies <= 2*F^2, fieldsAndFragment bodies <= 2*S*F; F, S over-approximated from the text: number of
+// `...` plus number of definitions, number of `{`; the counters only grow, so this is the final comparison made early and independent of the
+// machine's load) OR limit has passed. The goroutine cannot be stopped and a runaway recursion ends in a fatal stack
+// overflow after a few seconds: the caller reports and ends the process.
+func runOverlapWatched(schema *graphql.Schema, doc *ast.Document, src string, limit time.Duration) (out realOut, hung string) {
+	f := uint64(strings.Count(src, "...") + strings.Count(src, "fragment ") + 1) // >= spread names, >= fragment definitions
+	sets := uint64(strings.Count(src, "{") + 1)
 	ch := make(chan realOut, 1)
-	go func() { ch <- runRule(schema, doc, rule, counters) }()
-	select {
-	case out = <-ch:
-		return out, false
-	case <-time.After(limit):
-		return realOut{}, true
+	go func() { ch <- runRule(schema, doc, graphql.OverlappingFieldsCanBeMergedRule, true) }()
+	tick := time.NewTicker(10 * time.Millisecond)
+	defer tick.Stop()
+	deadline := time.Now().Add(limit)
+	for {
+		select {
+		case out = <-ch:
+			return out, ""
+		case <-tick.C:
+			c := graphql.VerifCounters()
+			ff, bf := c[graphql.VerifSiteFieldsAndFragment], c[graphql.VerifSiteBetweenFragments]
+			if bf > 2*f*f || ff > 2*sets*f {
+				return realOut{Counters: c}, fmt.Sprintf("is still running after %d betweenFragments and %d fieldsAndFragment memo bodies (memo_body_at_most_once bounds them by 2*F^2 <= %d and 2*S*F <= %d)", bf, ff, 2*f*f, 2*sets*f)
+			}
+			if time.Now().After(deadline) {
+				return realOut{Counters: c}, fmt.Sprintf("did not return within %v (overlap_no_fuel_exhaustion says the memoised comparison terminates)", limit)
+			}
+		}
 	}
 }
 
@@ -453,11 +471,11 @@ func main() {
 			b, _ := json.Marshal(map[string]interface{}{"property": "C02", "note": "case in flight when the harness process died", "replay": map[string]interface{}{"case": c}})
 			os.WriteFile(inflight, b, 0o644)
 		}
-		ov, hung := runRuleWatched(schema, doc, graphql.OverlappingFieldsCanBeMergedRule, true, 10*time.Second)
-		if hung {
+		ov, hung := runOverlapWatched(schema, doc, c.Src, 10*time.Second)
+		if hung != "" {
 			run.Case(c.Src, true, nil)
-			run.Violation(fmt.Sprintf("OverlappingFieldsCanBeMerged did not return within 10 s on a document of %d bytes (overlap_no_fuel_exhaustion / memo_body_at_most_once say the memoised comparison terminates): %s", len(c.Src), c.Src),
-				map[string]interface{}{"case": c, "real_overlap": "no answer within 10 s"}, false)
+			run.Violation(fmt.Sprintf("OverlappingFieldsCanBeMerged %s on a document of %d bytes: %s", hung, len(c.Src), c.Src),
+				map[string]interface{}{"case": c, "real_overlap": ov, "real_overlap_status": hung}, false)
 			run.Finish()
 			os.Exit(0) // the comparison is still recursing in its goroutine and cannot be stopped
 		}
